@@ -60,13 +60,13 @@ const (
 var stateNames = []string{"absent", "empty", "value"}
 var writeNames = []string{"untouched", "delete", "put-empty", "put-value"}
 
-type storeCase struct {
+type StoreCase struct {
 	Mode   string `json:"mode"` // "store"
 	Before [2]int `json:"before"`
 	Write  [2]int `json:"write"`
 }
 
-func (sc storeCase) String() string {
+func (sc StoreCase) String() string {
 	return fmt.Sprintf("before=(%s,%s) commit=(%s,%s)", stateNames[sc.Before[0]], stateNames[sc.Before[1]], writeNames[sc.Write[0]], writeNames[sc.Write[1]])
 }
 
@@ -91,12 +91,20 @@ func viewDump(d db.DB) string {
 	return out
 }
 
-func storeLevel(c *xs.Ctx, r *xs.Result, only *storeCase) {
+// StoreValueCases is also run by C08 (prefix "C08"): "a rollback returns the store to the state before the commit" there.
+func StoreValueCases(c *xs.Ctx, r *xs.Result, prefix string, only *StoreCase) {
+	storePrefix = prefix
+	storeLevel(c, r, only)
+}
+
+var storePrefix = "C06"
+
+func storeLevel(c *xs.Ctx, r *xs.Result, only *StoreCase) {
 	for b0 := 0; b0 < nStates; b0++ {
 		for b1 := 0; b1 < nStates; b1++ {
 			for w0 := 0; w0 < nWrites; w0++ {
 				for w1 := 0; w1 < nWrites; w1++ {
-					sc := storeCase{"store", [2]int{b0, b1}, [2]int{w0, w1}}
+					sc := StoreCase{"store", [2]int{b0, b1}, [2]int{w0, w1}}
 					if only != nil && *only != sc {
 						continue
 					}
@@ -107,7 +115,7 @@ func storeLevel(c *xs.Ctx, r *xs.Result, only *storeCase) {
 	}
 }
 
-func runStoreCase(c *xs.Ctx, r *xs.Result, sc storeCase) {
+func runStoreCase(c *xs.Ctx, r *xs.Result, sc StoreCase) {
 	dir := c.TempDir()
 	mgr := db.NewLevelDBManager(dir)
 	defer func() {
@@ -164,21 +172,21 @@ func runStoreCase(c *xs.Ctx, r *xs.Result, sc storeCase) {
 	}
 	// the view of the parent, served while the commit is above it, reads the same undo record
 	if got := viewDump(mgr.Get(c1)); got != frontBefore {
-		r.Violate("C06:store:historical-view-below-a-commit-differs-from-the-state-before-it", fmt.Sprintf("%v: view of the parent %s, state before the commit %s", sc, got, frontBefore), sc)
+		r.Violate(storePrefix+":store:historical-view-below-a-commit-differs-from-the-state-before-it", fmt.Sprintf("%v: view of the parent %s, state before the commit %s", sc, got, frontBefore), sc)
 	}
 	if err := mgr.Pop(); err != nil {
-		r.Violate("C06:store:pop-fails", fmt.Sprintf("%v: %v", sc, err), sc)
+		r.Violate(storePrefix+":store:pop-fails", fmt.Sprintf("%v: %v", sc, err), sc)
 		return
 	}
 	r.Count("store_cases", 1)
 	r.Count("pops_compared", 1)
 	r.Add("store_states", frontBefore)
 	if got := viewDump(mgr.Frontier()); got != frontBefore {
-		r.Violate("C06:store:pop-does-not-restore-every-key", fmt.Sprintf("%v: after the rollback %s, before the commit %s", sc, got, frontBefore), sc)
+		r.Violate(storePrefix+":store:pop-does-not-restore-every-key", fmt.Sprintf("%v: after the rollback %s, before the commit %s", sc, got, frontBefore), sc)
 		return
 	}
 	if got := rawDigest(mgr); got != rawBefore {
-		r.Violate("C06:store:pop-does-not-restore-the-raw-store", fmt.Sprintf("%v: raw store (data, undo and redo records) differs from the store before the commit was added", sc), sc)
+		r.Violate(storePrefix+":store:pop-does-not-restore-the-raw-store", fmt.Sprintf("%v: raw store (data, undo and redo records) differs from the store before the commit was added", sc), sc)
 	}
 }
 
